@@ -337,6 +337,11 @@ CHECKS = {
     technique='runtime monitoring: differential between library(reif) and the explicit disjunction over =/2 and dif/2 generated by the check, with all remaining variables labelled so that both answer lists are ground',
     text='Random conditions of depth <= 3 over X = Y, dif(X, Y), conjunction and disjunction (operands: three variables, constants, f(Var)), with any subset of the variables bound beforehand, are run through if_/3 (also nested) next to their defining disjunction; tfilter/3, tpartition/4, memberd_t/3 and tmember/2 with an =/3 test on lists of length 0-4 over variables and constants are run next to explicit recursive definitions; after labelling X, Y, Z over a five-element domain both sides must give the same answers with the same multiplicity.',
     note='Only (=)/3-based tests are passed to the list predicates; residual constraints are never compared directly because labelling decides them.'),
+ 'C24': dict(
+    level='exploration',
+    technique='runtime monitoring: reference model on term graphs (bisimulation for identity, union-find for unifiability, reachability for cyclicity, groundness and variables); the graphs are built inside the machine by solving random equation systems with the occurs check off',
+    text='Random systems of 1-6 equations N_i = shape(args) (binary and unary structures, list cells, strings with open tails, pairs; arguments are other nodes incl. back edges and self loops, constants and shared variables) are solved by unification; for every node acyclic_term/1, ground/1, the number of term_variables/2 and copy_term/2 followed by unification with the original, and for random node pairs ==/2, compare/3 in both directions and =/2 are compared with the model; acyclic_term/1 is followed by unifying all nodes with a copy taken before; every call must return within 20 s.',
+    note='Known finding K15: acyclic_term/1 misjudges shared compact strings and leaves character lists changed (keyed on graphs that contain strings or character lists). compare/3 is only required to answer = exactly for identical terms and to be antisymmetric.'),
 }
 
 NOT_APPLICABLE_REASON_UNBUILT = ('check designed in DESIGN.md but not built/validated yet in this session; '
